@@ -39,12 +39,11 @@ VARIABLES now,         \* time of the last evaluation (integer units)
           store,       \* the TSDB: set of samples [k (series), t, v]
           removed,     \* groups removed by the last Update whose markStale cleanup has not run yet:
                        \* set of [g, t (time of the stop), ks (series to mark)]
-          started,     \* group name -> has Group.run passed its initial wait (first slot) and armed the markStale defer
-          lost,        \* ghost: series abandoned without marker because their group was removed before it started (KF-C45-1)
+          started,     \* group name -> has Group.run passed its initial wait (first evaluation slot)
           updates, nops, hist
 
-vars == <<now, conf, groups, store, removed, started, lost, updates, nops, hist>>
-View == <<conf, groups, removed, started, lost, updates,
+vars == <<now, conf, groups, store, removed, started, updates, nops, hist>>
+View == <<conf, groups, removed, started, updates,
           {<<x.k, now - x.t, IF x.v = 0 - 1 THEN 0 - 1 ELSE x.v - 100 * x.t>> : x \in store}>>
 
 Stale == 0 - 1
@@ -121,7 +120,7 @@ Eval(g, present) ==
      /\ now' = ts
      /\ store' = st
      /\ groups' = [groups EXCEPT ![g] = [rules |-> G.rules, prev |-> e.prevs, stale |-> {}]]
-     /\ UNCHANGED <<conf, removed, started, lost, updates>>
+     /\ UNCHANGED <<conf, removed, started, updates>>
      /\ nops' = nops + 1
      /\ hist' = Append(hist, [a |-> "Eval", g |-> g, ts |-> ts, present |-> present, nstale |-> Cardinality(G.stale),
                               input |-> {[s |-> s, v |-> ValOf(s, ts)] : s \in present},
@@ -166,26 +165,24 @@ Update(c) ==
   /\ now' = now + 1
   /\ updates' = updates + 1
   /\ groups' = [g1 |-> Reloaded(c, "g1"), g2 |-> Reloaded(c, "g2")]
-  \* Group.run registers the markStale defer only after its initial wait: a group removed before that
-  \* returns from run() without marking anything (KF-C45-1)
-  /\ removed' = {[g |-> g, t |-> now + 1, ks |-> AllSeries(groups[g])] :
-                   g \in {x \in GroupNames : Configs[c][x] = <<>> /\ groups[x].rules # <<>> /\ started[x]}}
-  /\ lost' = lost \cup UNION {AllSeries(groups[g]) :
-                   g \in {x \in GroupNames : Configs[c][x] = <<>> /\ groups[x].rules # <<>> /\ ~started[x]}}
+  \* Group.run registers the markStale cleanup before its initial wait, so a group removed before its first
+  \* slot marks the series it inherited through CopyState as well (KF-C45-1, fixed in 9bf58a02b3: the defer
+  \* used to be registered after the wait and such a group wrote no markers)
+  /\ removed' = {[g |-> g, t |-> now + 1, ks |-> AllSeries(groups[g]), started |-> started[g]] :
+                   g \in {x \in GroupNames : Configs[c][x] = <<>> /\ groups[x].rules # <<>>}}
   /\ started' = [g1 |-> started["g1"] /\ Configs[c]["g1"] = groups["g1"].rules,
                  g2 |-> started["g2"] /\ Configs[c]["g2"] = groups["g2"].rules]
   /\ UNCHANGED store
   /\ nops' = nops + 1
   /\ hist' = Append(hist, [a |-> "Update", t |-> now + 1, conf |-> c, cfg |-> Configs[c], removed |-> {x.g : x \in removed'},
-                           kept |-> {g \in GroupNames : Configs[c][g] = groups[g].rules /\ groups[g].rules # <<>>},
-                           orphaned |-> lost' \ lost])
+                           kept |-> {g \in GroupNames : Configs[c][g] = groups[g].rules /\ groups[g].rules # <<>>}])
 
 \* Group.run: the initial wait for the group's first evaluation slot is over (nothing else happens:
 \* the harness replaces the evaluation function and drives Group.Eval itself)
 Start(g) ==
   /\ groups[g].rules # <<>> /\ ~started[g] /\ removed = {}
   /\ started' = [started EXCEPT ![g] = TRUE]
-  /\ UNCHANGED <<now, conf, groups, store, removed, lost, updates>>
+  /\ UNCHANGED <<now, conf, groups, store, removed, updates>>
   /\ nops' = nops + 1
   /\ hist' = Append(hist, [a |-> "Start", g |-> g])
 
@@ -198,9 +195,10 @@ Cleanup ==
          st  == AppendAll(store, {[k |-> y.k, v |-> y.v] : y \in smp}, now)
      IN /\ store' = st
         /\ hist' = Append(hist, [a |-> "Cleanup", groups |-> {x.g : x \in removed}, t |-> now,
+                                 unstarted |-> {x.g : x \in {y \in removed : ~y.started}},
                                  written |-> WrittenAt(st, now)])
   /\ removed' = {}
-  /\ UNCHANGED <<now, conf, groups, started, lost, updates>>
+  /\ UNCHANGED <<now, conf, groups, started, updates>>
   /\ nops' = nops + 1
 
 Init ==
@@ -209,12 +207,12 @@ Init ==
   /\ groups = [g1 |-> NewGroup(Configs[InitConfig]["g1"]), g2 |-> NewGroup(Configs[InitConfig]["g2"])]
   /\ store = {}
   /\ removed = {}
-  /\ started = [g1 |-> FALSE, g2 |-> FALSE] /\ lost = {}
+  /\ started = [g1 |-> FALSE, g2 |-> FALSE]
   /\ updates = 0 /\ nops = 0
   /\ hist = <<[a |-> "Init", conf |-> InitConfig, cfg |-> Configs[InitConfig], series |-> S]>>
   /\ TLCSet(1, {})
 
-End == nops = MaxOps /\ nops' = MaxOps + 1 /\ UNCHANGED <<now, conf, groups, store, removed, started, lost, updates, hist>>
+End == nops = MaxOps /\ nops' = MaxOps + 1 /\ UNCHANGED <<now, conf, groups, store, removed, started, updates, hist>>
 
 Next == \/ /\ nops < MaxOps
            /\ \/ \E g \in GroupNames, p \in SUBSET S : Eval(g, p)
@@ -266,7 +264,6 @@ Ref_OnlyNow == [][IsEval => LET e == Last(hist') IN
 \*     is a value belongs to a rule's last result, to a group's pending staleSeries or to a pending removed group
 Owned == UNION {AllSeries(groups[g]) : g \in GroupNames} \cup UNION {x.ks : x \in removed}
 NoOrphan == \A k \in AllSer : (Of(store, k) # {} /\ LastOf(store, k).v # Stale) => k \in Owned
-NoOrphanKF == \A k \in AllSer : (Of(store, k) # {} /\ LastOf(store, k).v # Stale) => (k \in Owned \/ k \in lost)   \* KF-C45-1
 \*     ... and what is pending is marked at the group's next evaluation / at the removed group's cleanup
 Ref_Removed == [][(hist' # hist /\ Last(hist').a = "Cleanup") =>
                     \A x \in removed : \A k \in x.ks : LastOf(store', k).t = x.t]_vars
@@ -282,7 +279,7 @@ Class ==
          IF q.a = "Eval" THEN <<"Eval", q.g = e.g, q.nstale > 0>> ELSE <<q.a>>>>
   ELSE IF e.a = "Update" THEN <<"Update", conf, e.conf, groups["g1"].prev, groups["g2"].prev, started>>
   ELSE IF e.a = "Start" THEN <<"Start", e.g, conf>>
-  ELSE <<"Cleanup", {<<w.k.n, w.k.s>> : w \in e.written}>>
+  ELSE <<"Cleanup", {<<w.k.n, w.k.s>> : w \in e.written}, e.unstarted>>
 
 Emit ==
   CASE EmitMode = "none" -> TRUE
